@@ -1,0 +1,40 @@
+//go:build verif
+
+package storage
+
+// Verification hook for property C26 (round work). Add-only, compiled only with the `verif`
+// build tag.
+
+import (
+	"encoding/binary"
+
+	"github.com/MixinNetwork/mixin/crypto"
+	"github.com/dgraph-io/badger/v4"
+)
+
+// VerifReadWorkCheckpoint returns the stored work checkpoint of a node: round and the snapshot
+// hashes in stored order (ok=false when the key is absent).
+func (s *BadgerStore) VerifReadWorkCheckpoint(nodeId crypto.Hash) (round uint64, hashes []crypto.Hash, ok bool, err error) {
+	err = s.snapshotsDB.View(func(txn *badger.Txn) error {
+		item, err := txn.Get(graphWorkOffsetKey(nodeId))
+		if err == badger.ErrKeyNotFound {
+			return nil
+		}
+		if err != nil {
+			return err
+		}
+		ival, err := item.ValueCopy(nil)
+		if err != nil {
+			return err
+		}
+		ok = true
+		round = binary.BigEndian.Uint64(ival[:8])
+		for i, rest := 0, ival[8:]; i < len(rest)/32; i++ {
+			var h crypto.Hash
+			copy(h[:], rest[32*i:32*(i+1)])
+			hashes = append(hashes, h)
+		}
+		return nil
+	})
+	return
+}
